@@ -245,7 +245,9 @@ class TcMachine(HistorySpec):
         return c02.st_tc(big=(255, 256))
 
     def ops(self):
-        return {"pack": st.just(0), "decode_and_continue": st.just(0), "set_app_data": st.one_of(st.just(""), hexblob(48), hexblob(300, 200)), "set_apid": uint(11), "set_seq_count": uint(14), "set_source_id": uint(16)}
+        return {"pack": st.just(0), "decode_and_continue": st.just(0), "set_app_data": st.one_of(st.just(""), hexblob(48), hexblob(300, 200)), "set_apid": uint(11), "set_seq_count": uint(14), "set_source_id": uint(16),
+                # the packet arrives with a damaged trailer: the caller takes the packet object the checksum refusal carries and goes on with it
+                "set_continue_with_packet_carried_by_crc_refusal": st.just(0)}
 
     def start(self, p):
         from ..strategies import expand_fill
@@ -259,6 +261,14 @@ class TcMachine(HistorySpec):
         m, o = s["m"], s["o"]
         if name == "decode_and_continue":
             s["o"] = s["tcm"].PusTc.unpack(bytes(o.pack()))
+        elif name == "set_continue_with_packet_carried_by_crc_refusal":
+            damaged = bytearray(o.pack())
+            damaged[-1] ^= 0x01
+            try:
+                s["tcm"].PusTc.unpack(bytes(damaged))
+            except Exception as e:  # noqa: BLE001 - the carried packet is what is looked at
+                if getattr(e, "tc", None) is not None:
+                    s["o"] = e.tc
         elif name == "set_app_data":
             o.app_data = bytes.fromhex(a)
             m["app_data"] = a
@@ -296,7 +306,10 @@ class TmMachine(HistorySpec):
         return c03.st_tm(big=(255, 256))
 
     def ops(self):
-        return {"pack": st.just(0), "decode_and_continue": st.just(0), "set_tm_data": st.one_of(st.just(""), hexblob(48), hexblob(300, 200)), "set_apid": uint(11)}
+        return {"pack": st.just(0), "decode_and_continue": st.just(0), "set_tm_data": st.one_of(st.just(""), hexblob(48), hexblob(300, 200)), "set_apid": uint(11),
+                "set_continue_with_packet_carried_by_crc_refusal": st.just(0),
+                # the time stamp replaced by one of another length through the secondary header, then the data setter (which recomputes the length)
+                "set_timestamp_through_header_then_tm_data": st.tuples(st.binary(max_size=12).map(bytes.hex), st.one_of(st.just(""), hexblob(24))).map(list)}
 
     def start(self, p):
         from ..strategies import expand_fill
@@ -310,6 +323,18 @@ class TmMachine(HistorySpec):
         m, o = s["m"], s["o"]
         if name == "decode_and_continue":
             s["o"] = s["tmm"].PusTm.unpack(bytes(o.pack()), len(m["timestamp"]) // 2)
+        elif name == "set_continue_with_packet_carried_by_crc_refusal":
+            damaged = bytearray(o.pack())
+            damaged[-1] ^= 0x01
+            try:
+                s["tmm"].PusTm.unpack(bytes(damaged), len(m["timestamp"]) // 2)
+            except Exception as e:  # noqa: BLE001
+                if getattr(e, "tm", None) is not None:
+                    s["o"] = e.tm
+        elif name == "set_timestamp_through_header_then_tm_data":
+            o.pus_tm_sec_header.timestamp = bytes.fromhex(a[0])
+            o.tm_data = bytes.fromhex(a[1])
+            m["timestamp"], m["source_data"] = a[0], a[1]
         elif name == "set_tm_data":
             o.tm_data = bytes.fromhex(a)
             m["source_data"] = a
